@@ -395,6 +395,21 @@ func (env *Env) fieldOf(base Val, name string, pos token.Pos) Val {
 			return Val{T: Term{app(sel, t.S), env.c.eng.Spec.Fns[sel].Res}}
 		}
 	}
+	// an exported field (possibly promoted through embedding) of a struct of another module that is modelled opaquely
+	// (it has unexported fields): reading it yields an unknown but fixed value of the field's type - an uninterpreted
+	// function of the opaque value. Only reads: nothing in the module can write such a field through this model.
+	if si := ss.Info(t.Sort); si != nil && si.Kind == KStruct && si.GoType != nil && len(si.Fields) > 0 && si.Fields[0].Name == "$id" {
+		if obj, _, _ := types.LookupFieldOrMethod(si.GoType, true, nil, name); obj != nil {
+			if fv, isVar := obj.(*types.Var); isVar && fv.IsField() && fv.Exported() {
+				fs := ss.SortOf(fv.Type())
+				fn := "opq." + mangle(t.Sort) + "." + name
+				env.c.declOnce(fmt.Sprintf("(declare-fun %s (%s) %s)", fn, t.Sort, fs))
+				r := Term{app(fn, t.S), fs}
+				env.st.Assume(env.c.typeFacts(r, fv.Type()))
+				return Val{T: r, GoT: fv.Type()}
+			}
+		}
+	}
 	env.fail(pos, "no field %s in sort %s", name, t.Sort)
 	return Val{}
 }
